@@ -22,3 +22,39 @@ var (
 	PRESSURE = Profile{Name: "PRESSURE", MinLen: 3, MaxLen: 24, PoolMin: 2, PoolMax: 3, MemSizes: smallMem,
 		W: Weights{Alu: 12, Div: 1, Branch: 2, Jump: 1, Loop: 1}, TakenPct: 40, ZeroRaPct: 5, MaxDyn: 1000}
 )
+
+var (
+	// SHADOWSLOW: SHADOW with branch operands produced by loads right before the
+	// branch, so that the branch resolves 1 to ~300 cycles after its shadow was
+	// dispatched.
+	SHADOWSLOW = Profile{Name: "SHADOWSLOW", MinLen: 4, MaxLen: 36, PoolMin: 2, PoolMax: 5, MemSizes: midMem,
+		W: Weights{Alu: 6, Load: 2, Store: 1, Branch: 6, Jump: 2, Loop: 1}, TakenPct: 70, Hostile: true, OOBShadow: true, ErrShadow: true,
+		ZeroRaPct: 8, MaxDyn: 2000, SlowBranchPct: 60}
+	// PRESSURELOAD: PRESSURE with load producers (loads only, so that no memory
+	// conflict arises): mixed-latency producers are what exercises the
+	// interlocks, forwarding and renaming.
+	PRESSURELOAD = Profile{Name: "PRESSURELOAD", MinLen: 3, MaxLen: 24, PoolMin: 2, PoolMax: 4, MemSizes: midMem,
+		W: Weights{Alu: 10, Div: 1, Load: 4, Branch: 2, Jump: 1, Loop: 1}, TakenPct: 40, ZeroRaPct: 5, MaxDyn: 1000, LoadsOnly: true, SlowBranchPct: 30}
+	// CACHE: loads and stores over memories larger than every cache, spread over
+	// all lines.
+	CACHE = Profile{Name: "CACHE", MinLen: 8, MaxLen: 60, PoolMin: 2, PoolMax: 5, MemSizes: bigMem,
+		W: Weights{Alu: 3, Load: 5, Store: 5, Branch: 1, Loop: 1, Walk: 3}, TakenPct: 50, ZeroRaPct: 5, MaxDyn: 3000, LineSpread: true}
+	// TAIL body.
+	TAIL = Profile{Name: "TAIL", MinLen: 0, MaxLen: 16, PoolMin: 2, PoolMax: 5, MemSizes: midMem,
+		W: Weights{Alu: 6, Load: 3, Store: 3, Branch: 1, Loop: 1}, TakenPct: 50, ZeroRaPct: 5, MaxDyn: 1500, LineSpread: true}
+	// PAIR filler.
+	PAIR = Profile{Name: "PAIR", MinLen: 0, MaxLen: 30, PoolMin: 3, PoolMax: 5, MemSizes: []int{256, 1024, 4096},
+		W: Weights{Alu: 8, Load: 1, Branch: 1}, TakenPct: 50, ZeroRaPct: 5, MaxDyn: 1500}
+	// ERR prefix.
+	ERR = Profile{Name: "ERR", MinLen: 0, MaxLen: 16, PoolMin: 2, PoolMax: 5, MemSizes: midMem,
+		W: Weights{Alu: 8, Load: 2, Store: 1, Branch: 2, Jump: 1, Loop: 1}, TakenPct: 50, ZeroRaPct: 5, MaxDyn: 1500}
+	// MEMSAFE: loads and stores on disjoint line sets (loads from the lower half
+	// of memory, stores to the upper half), so that no memory conflict and no
+	// store-miss-then-fill arises: the profile that keeps memory programs
+	// judged at parallelism >= 2.
+	MEMSAFE = Profile{Name: "MEMSAFE", MinLen: 4, MaxLen: 40, PoolMin: 3, PoolMax: 6, MemSizes: midMem,
+		W: Weights{Alu: 8, Load: 4, Store: 3, Branch: 2, Jump: 1, Loop: 1}, TakenPct: 50, ZeroRaPct: 5, MaxDyn: 2000, LineSpread: true, SplitHalves: true}
+)
+
+// AllProfiles lists the profiles by name.
+var AllProfiles = []Profile{REG, MEM, SHADOW, WALK, PRESSURE, SHADOWSLOW, PRESSURELOAD, CACHE, TAIL, PAIR, ERR, MEMSAFE}
